@@ -56,3 +56,14 @@ func (v *VerifRing) Fields() (uint64, uint64, bool, uint64, uint64, uint64) {
 }
 
 func VerifNewEventStore(size uint64) *EventStore { return newEventStore(size) }
+
+// VerifYieldHook, when set, is called at the named yield points (deterministic interleavings in the harness).
+var VerifYieldHook func(point string)
+
+func verifYield(point string) {
+	if VerifYieldHook != nil {
+		VerifYieldHook(point)
+	}
+}
+
+func VerifNewEventStreaming(r *VerifRing) *EventStreaming { return NewEventStreaming(r.rb) }
